@@ -39,8 +39,9 @@ func histFamiliesW(c *CheckRun, wantFan bool, light bool) []histB {
 			out = append(out, every(fLong(kindAlphaB, []int{mp, mp + 1}, false), 3, c.Seed)...)
 			out = append(out, every(fLongDeep(kindAlphaB, []int{mp + 1}, false), 2, c.Seed)...)
 			out = append(out, fNum(kindU8, 3)...)
-			out = append(out, fNum(kindI64, 2)...)
-			out = append(out, fNum(kindF32, 2)...)
+			for _, k := range numericAll {
+				out = append(out, fNum(k, 2)...) // every key type has its own codec arm and (for the kind) its own tree copy
+			}
 		} else {
 			out = append(out, fShort(kindAlphaB, 2, []int{0, 1, 2}, true)...)
 			out = append(out, fShort(kindAlphaB, 3, []int{0, 1, 2}, false)...)
@@ -49,6 +50,9 @@ func histFamiliesW(c *CheckRun, wantFan bool, light bool) []histB {
 			out = append(out, fLongDeep(kindAlphaB, []int{mp + 1}, false)...)
 			for _, k := range numericQuick {
 				out = append(out, fNum(k, 3)...)
+			}
+			for _, k := range numericAll {
+				out = append(out, fNum(k, 2)...)
 			}
 		}
 		if wantFan {
@@ -175,7 +179,7 @@ func init() {
 		ID: "C02", Level: "model_checking", Summaries: true, Rule: stateRule,
 		Scenarios: func(c *CheckRun) []*Scenario {
 			out := withMask(histFamilies(c, true), ckIter, nil)
-			out = append(out, fanKinds(c, ckIter, c.Tier != "quick")...)
+			out = append(out, fanKindsOpt(c, ckIter, c.Tier != "quick", true)...)
 			out = append(out, k0Scenarios(ckIter)...)
 			return out
 		},
@@ -185,7 +189,7 @@ func init() {
 		ID: "C06", Level: "model_checking", Summaries: true, Rule: stateRule,
 		Scenarios: func(c *CheckRun) []*Scenario {
 			out := withMask(histFamilies(c, true), ckSize|ckIter, nil)
-			out = append(out, fanKinds(c, ckSize|ckIter, c.Tier != "quick")...)
+			out = append(out, fanKindsOpt(c, ckSize|ckIter, c.Tier != "quick", true)...)
 			out = append(out, k0Scenarios(ckSize|ckIter)...)
 			return out
 		},
@@ -194,7 +198,7 @@ func init() {
 	register(&CheckSpec{
 		ID: "C05", Level: "model_checking", Summaries: true, Rule: stateRule,
 		Scenarios: func(c *CheckRun) []*Scenario {
-			return append(withMask(cheapBig(histFamiliesW(c, true, true)), ckExt, nil), fanKinds(c, ckExt, false)...)
+			return append(withMask(cheapBig(histFamiliesW(c, true, true)), ckExt, nil), fanKindsOpt(c, ckExt, false, true)...)
 		},
 		Bounds: append([]string{"Minimum/Maximum and BottomK(n)/TopK(n) with a fully symbolic 64-bit n after every history"}, commonBounds...), Outside: commonOutside, Assumptions: commonAssume,
 	})
@@ -356,6 +360,12 @@ func prefixScenarios(c *CheckRun) []*Scenario {
 
 func reiterScenarios(c *CheckRun) []*Scenario {
 	var out []*Scenario
+	// collation trees (their Range/Prefix keep state in the shared collation buffer)
+	i2 := 0
+	out = append(out, collScenarios(c, ckReiter, func(b *histB) []int {
+		i2++
+		return []int{[]int{3, 0, 2, 1, 4, 5}[i2%6], probeSpec(b), cSpec(1, 2)}
+	}, []int{14}, 0, "")...)
 	base := histFamiliesW(c, false, true)
 	i := 0
 	for _, b := range base {
